@@ -312,8 +312,14 @@ func sysMutations(c pcase) []pcase {
 	return out
 }
 
-// Quick tier: systematic mutations for every 1-component repository and for the
-// 2-component repositories over this sub-vocabulary.
+// Mutation bases of the systematic mutations: the representative digest /
+// upload id / algorithm / offset per (repository, kind, tag) as for the scripted
+// mutations, every blob path, and
+//
+//	quick:    every 1-component repository and the 2-component repositories over
+//	          quickSysWords, 5 of the 16 tags;
+//	thorough: every repository of <= 2 components; all 16 tags for 1-component
+//	          repositories, the 5 quick tags for 2-component repositories.
 var quickSysWords = map[string]bool{"kraken": true, "a_b": true, "repositories": true}
 
 func sysBase(c pcase) bool {
@@ -324,8 +330,13 @@ func sysBase(c pcase) bool {
 		return false
 	}
 	parts := strings.Split(c.Repo, "/")
-	if quickTier && len(parts) == 2 && !(quickSysWords[parts[0]] && quickSysWords[parts[1]]) {
-		return false
+	if len(parts) == 2 {
+		if c.Tag != "" && !quickMutTags[c.Tag] {
+			return false
+		}
+		if quickTier && !(quickSysWords[parts[0]] && quickSysWords[parts[1]]) {
+			return false
+		}
 	}
 	return true
 }
